@@ -83,6 +83,44 @@ CLAIMED = {
         "note": "Trusted: CPython, the `infinity` package ordering, refmodel/dpentry.py. Values outside {0,1,2} and falsy tags are not explored.",
         "technique": TECH_E1,
     },
+    "C17": {
+        "category": "exploration",
+        "text": "Exhaustive over all rooted plane trees of any arity with <= 8 (quick) / 10 (thorough) nodes built through the ete3 API: every "
+                "node, ordered pair and ordered triple for lca / is_ancestor_of / is_strict_ancestor_of / is_comparable / level / distance against "
+                "parent-chain definitions; every array of length <= 10 / 12 over {0,1,2} x every (start, stop) pair for RangeMinQuery.",
+        "design_ref": "6 (C17)",
+        "note": "Trusted: ete3 parent/children pointers, refmodel/trees.py. Trees beyond 10 nodes and arrays beyond length 12 are not explored.",
+        "technique": TECH_E2,
+    },
+    "C18": {
+        "category": "exploration",
+        "text": "Exhaustive over all (child != 0, parent) mask pairs up to 10 (quick) / 12 (thorough) bits x both end modes against an independent "
+                "run counter, and all sequences of distinct elements up to length 10 / 12 with all their subsequences (three element alphabets) "
+                "for the mask <-> subsequence round trip.",
+        "design_ref": "6 (C18)",
+        "note": "Trusted: refmodel/graphs.py:lost_runs_mask.",
+        "technique": TECH_E2,
+    },
+    "C19": {
+        "category": "exploration",
+        "text": "Exhaustive over all 66 067 digraphs on <= 4 vertices (self-loops included), loop-free digraphs on 5 vertices (<= 5 edges quick, "
+                "all 2^20 thorough) and the precedence graphs the ordered solver builds for every tuple of <= 3 (4) leaf syntenies: toposort_all "
+                "= permutation filter as a multiset, toposort returns a member iff one exists.",
+        "design_ref": "6 (C19)",
+        "note": "Trusted: refmodel/graphs.py:topo_orders (permutation filtering).",
+        "technique": TECH_E2,
+    },
+    "C20": {
+        "category": "model_checking",
+        "text": "Union-find: explicit-state BFS over every unite() history on 3-6 elements to a fixpoint (<= 5 elements; 6 elements to depth 4 quick, "
+                "fixpoint thorough), real (parent, rank, groups) paired with the naive partition, find/len/to_list/unite result/binary() checked in "
+                "every state, each transition replayed on a fresh object. Triples/supertrees: exhaustive over all labelled binary trees on <= 5 (6) "
+                "leaves, all 4096 subsets of the triples on 4 leaves (and <= 3 triples on 5 leaves), all pairs of binary trees on overlapping leaf "
+                "sets within 5 labels.",
+        "design_ref": "6 (C20), 3 (E1 explorer)",
+        "note": "Trusted: refmodel/graphs.py (clade-based display test, two-block coarsenings), ete3.",
+        "technique": TECH_E1 + "; bounded-exhaustive enumeration of trees and triple sets for the triple routines",
+    },
 }
 
 PENDING_REASON = "check not built yet in this session (see DESIGN.md section 6 for the planned bounded-exhaustive check)"
